@@ -22,6 +22,7 @@ CONSTANTS N, SITES, STENCIL1, STENCIL2, VANISH, ALLORDERS, EMITMOD
 \* ---- constant tables (no tuples in .cfg files) ------------------------------------------
 Sites3  == <<<<10, 10>>, <<20, 10>>, <<60, 100>>>>
 Sites4  == <<<<10, 10>>, <<20, 10>>, <<60, 100>>, <<110, 14>>>>
+Sites4v == <<<<10, 10>>, <<110, 14>>, <<60, 100>>, <<56, 40>>>>      \* site 4 lies inside the bounding box of the others
 Sites5  == <<<<10, 10>>, <<20, 10>>, <<110, 14>>, <<60, 100>>, <<14, 24>>>>
 Sites6  == <<<<10, 10>>, <<20, 10>>, <<10, 22>>, <<110, 14>>, <<60, 100>>, <<108, 96>>>>
 StA2 == {<<4, 3>>, <<0, 9>>}
@@ -30,7 +31,8 @@ StA3 == {<<0, 0>>, <<4, 3>>, <<0, 9>>}
 StB3 == {<<-2, 1>>, <<6, 0>>, <<0, -9>>}
 StA4 == {<<0, 0>>, <<4, 3>>, <<0, 9>>, <<-5, 5>>}
 StB4 == {<<-2, 1>>, <<6, 0>>, <<0, -9>>, <<0, 0>>}
-StV1 == {<<4, 3>>, <<0, 0>>}
+StV1 == {<<4, 3>>}
+StV1x == {<<4, 3>>, <<0, 9>>}
 StV2 == {<<-2, 1>>}
 StJ1 == {<<0, 0>>, <<0, 40>>}           \* jumps: the bounding box changes by more than 10% -> step skipped
 StJ2 == {<<3, 0>>, <<0, -40>>}
